@@ -56,6 +56,14 @@ def queries(tier):
                 unwind={"harness.1": 270, "harness.3": 270, "harness": 5}, flags=["--max-field-sensitivity-array-size", "300"], stubs=["libc.c"], timeout=900,
                 bounds="plain COBS encoder at the real block size: any state (0..3 finished bytes, open block of 0..254), one push of 1..3 arbitrary bytes, ample space",
                 outside="pushes above 3 bytes per call from an arbitrary state (round trip covers whole messages up to N); capacity-limited pushes (round trip); COBS/R, ZPE step functions"))
+    if tier == "thorough":
+        for (nm, d) in (("step_zpe", {"ZPE": 1}), ("terminate_cobs_r", {"TERMINATE": 1, "TAIL_INLINE": 1}), ("terminate_zpe", {"TERMINATE": 1, "ZPE": 1}),
+                        ("terminate_zpe_r", {"TERMINATE": 1, "ZPE": 1, "TAIL_INLINE": 1})):
+            qs.append(Q("encoder_" + nm, "C01/encstep.c", units=["mptcore/convert/encode_cobs.c", "mptcore/convert/encode_cobs_r.c", "mptcore/convert/encode_cobs_zpe.c", "mptcore/message/memchr.c"],
+                        harness_defines=d, unwind_default=5, unwind={"harness.1": 270, "harness.2": 270, "harness.3": 270, "harness": 5},
+                        flags=["--max-field-sensitivity-array-size", "300"], stubs=["libc.c"], timeout=1200,
+                        bounds="encoder %s at the real block size from any state (0..3 finished bytes, open block up to the maximum): %s" % (nm, "termination" if "TERMINATE" in d else "push of 1..3 arbitrary bytes"),
+                        outside="see encoder_step_cobs"))
     qs.append(Q("encoder_terminate_cobs", "C01/encstep.c", units=["mptcore/convert/encode_cobs.c", "mptcore/message/memchr.c"], harness_defines={"TERMINATE": 1}, unwind_default=5,
                 unwind={"harness.1": 270, "harness.2": 270, "harness": 5}, flags=["--max-field-sensitivity-array-size", "300"], stubs=["libc.c"], timeout=600,
                 bounds="plain COBS encoder: message termination from any state (0..3 finished bytes already in the buffer, open block of 0..254)", outside="COBS/R, ZPE terminations from arbitrary states"))
